@@ -1,6 +1,6 @@
 """Translator anchors for fedjax/models/shakespeare.py (C20): the label ids the model's
 loss, logits mask and metrics assume, as functions of vocab_size, and its default."""
-from lib.c20tr import A_localconsts, A_default, A_metric_ids
+from lib.c20tr import A_localconsts, A_default, A_metric_ids, A_train_loss
 
 SRC = 'fedjax/models/shakespeare.py'
 SPEC = [('pad', 'sh_pad'), ('bos', 'sh_bos'), ('eos', 'sh_eos'), ('oov', 'sh_oov'), ('full_vocab_size', 'sh_full_vocab_size')]
@@ -13,5 +13,10 @@ MODULES = {
             A_localconsts('create_lstm_model', SPEC, ['vocab_size']),
             A_metric_ids('create_lstm_model', ['vocab_size'], SPEC, 'sh_'),
         ],
+    },
+    'Gen_md_shakespeare_loss': {
+        'src': SRC,
+        'preamble': 'From Coq Require Import QArith.\nFrom FV Require Import Common.QRow.\nLocal Open Scope Q_scope.\n',
+        'items': [A_train_loss('create_lstm_model', 'sh_train_loss_row')],
     },
 }
